@@ -1,5 +1,5 @@
-\* exhaustive: assemblies of 2 blocks (pairs p1+p7, p19+singles, mixed+nogrid, prism+families, both orientations), k in -7..7; act/prev part of the state
-CONSTANTS K = 7  H = 3  NB = 2  Layouts = {"p1", "p19", "mixed", "prism"}  TieDi = TRUE  MaxLevel = 3
+\* exhaustive: assemblies of 2 blocks (pairs p1+p7, p19+singles, mixed+nogrid, prism+families, both orientations), k in -6..6 (the emission configs go to +-7); act/prev part of the state
+CONSTANTS K = 6  H = 1  NB = 2  Layouts = {"p1", "p19", "mixed", "prism"}  TieDi = TRUE  MaxLevel = 3
 INIT Init
 NEXT NextB
 CONSTRAINT Bound
